@@ -136,3 +136,64 @@ def no_memoised_schema_functions(repo: Repo, rep: Report, rule: str) -> None:
         else:
             rep.ok(rule, f"{fi.qualname}: not memoised on its arguments", None, nontrivial=bool(decos))
     rep.floor(rule, 40)
+
+
+# ------------------------------------------------------------------------------------------------ R17.15
+def type_refs_not_by_bare_name(repo: Repo, rep: Report, rule: str) -> None:
+    """A type reference spliced into generated *code* is rendered by get_type_name_identifier / type_name (module-qualified,
+    modules registered) or bound with ensure_object_imported.  ``<type>.__name__`` / ``.__qualname__`` is a bare name that is
+    in the generated namespace only for builtins: for a NewType, a str subclass, an Annotated alias or a local class the
+    generated function has a free variable (NameError on every call).  ``__name__`` as a *part of an identifier* (helper
+    method names such as ``__unpack_union_<cls>_<field>__``) is the accepted idiom."""
+    from .srcmodel import M_PACK
+    seen = 0
+    for fi in repo.funcs.values():
+        if fi.module not in (M_PACK, M_UNPACK, M_BUILDER, M_CODEC_BUILDER, "mashumaro.core.meta.types.common"):
+            continue
+        for n in _own_nodes(fi.node):
+            if not isinstance(n, ast.JoinedStr):
+                continue
+            holes = [v for v in n.values if isinstance(v, ast.FormattedValue)]
+            named = [h for h in holes if isinstance(h.value, ast.Attribute) and h.value.attr in ("__name__", "__qualname__")]
+            if not named:
+                continue
+            skeleton = "".join(str(v.value) if isinstance(v, ast.Constant) else "h" for v in n.values)
+            for h in named:
+                seen += 1
+                inst = f"{fi.qualname}: `{ast.unparse(n)[:90]}`"
+                if skeleton.isidentifier():
+                    rep.ok(rule, inst + " (part of an identifier)", None, nontrivial=False)
+                else:
+                    rep.violation(rule, fi.key, f"{fi.qualname}: {ast.unparse(h.value)} spliced into code `{skeleton[:60]}`",
+                                  "the bare class name is a free variable of the generated function unless the type is a builtin: a NewType, a "
+                                  "str / int subclass, an Annotated alias or a local class as the union member makes every call raise NameError "
+                                  "(reported as InvalidFieldValue for any input)", loc=_loc(fi, n))
+    rep.floor(rule, 5)
+
+
+# ------------------------------------------------------------------------------------------------ R05.17
+def nullability_on_substituted_type(repo: Repo, rep: Report, rule: str) -> None:
+    """Registry.get dispatches on ``get_real_type(name, type)`` -- the type with the owner's type parameters substituted.  The
+    field-level None guard must be decided on the same type: ``is_optional(ftype, resolved_params)`` only looks *inside* a union
+    for a parameter bound to NoneType; a field ``x: T`` of ``Box[Optional[date]]`` dispatches to the Optional handler but gets
+    no guard (pack side: AttributeError on None).  Accepted: the first argument of is_optional is a ``get_real_type(...)`` call."""
+    seen = 0
+    for fi in repo.funcs.values():
+        if fi.module != M_BUILDER:
+            continue
+        for st in _own_nodes(fi.node):
+            if not (isinstance(st, ast.Assign) and isinstance(st.value, ast.BoolOp) and isinstance(st.value.op, ast.Or)):
+                continue
+            for v in st.value.values:
+                for c in ast.walk(v):
+                    if isinstance(c, ast.Call) and isinstance(c.func, ast.Name) and c.func.id == "is_optional" and c.args:
+                        seen += 1
+                        a0 = c.args[0]
+                        inst = f"{fi.qualname}: {ast.unparse(c)}"
+                        if isinstance(a0, ast.Call) and isinstance(a0.func, ast.Attribute) and a0.func.attr == "get_real_type":
+                            rep.ok(rule, inst, None)
+                        else:
+                            rep.violation(rule, fi.key, f"{fi.qualname}: is_optional({ast.unparse(a0)}, ...)",
+                                          "the None guard is decided on the declared type although the converter is chosen for the substituted one: a "
+                                          "TypeVar field of a generic dataclass specialised with Optional[X] is packed without a None guard", loc=_loc(fi, st))
+    rep.floor(rule, 2)
